@@ -22,6 +22,9 @@ pub enum Action {
     DeleteOut(String),
     /// truncate a generated file behind the tool's back
     TruncateOut(String),
+    /// a generated file is replaced by a symbolic link whose target no longer exists (the file was
+    /// moved to a shared place that was then cleaned up): the name is still listed, the file is gone
+    DanglingOut(String),
     /// no change at all (pure re-run)
     Nop,
     /// the inner action, followed by a FORCED run (--force on the CLI, force: true in the file on
@@ -36,6 +39,7 @@ impl Action {
             Action::Cfg(n) => format!("cfg:{}", n),
             Action::DeleteOut(f) => format!("delete:{}", f),
             Action::TruncateOut(f) => format!("truncate:{}", f),
+            Action::DanglingOut(f) => format!("dangling-link:{}", f),
             Action::Nop => "nop".into(),
             Action::Forced(inner) => format!("forced:{}", inner.name()),
         }
@@ -106,13 +110,21 @@ pub fn cfg_toggle(cfg: &FileCfg, which: &str) -> FileCfg {
 pub const CFG_TOGGLES: [&str; 6] = ["mode", "mapping", "mapping2", "param_case", "field_case", "visualize"];
 pub const GEN_FILES: [&str; 6] = ["types.ts", "commands.ts", "events.ts", "index.ts", "dependency-graph.txt", "dependency-graph.dot"];
 
+/// content standing for "a symbolic link to a file that does not exist" in a recorded output directory
+pub const DANGLING: &[u8] = b"\0\0dangling symbolic link\0\0";
+
 pub fn materialize(root: &std::path::Path, project: &Project, st: &HState) {
     sbx::write_sources(root, project, &st.cfg);
     let od = sbx::out_dir(root, &st.cfg);
     if !st.out.is_empty() {
         std::fs::create_dir_all(&od).unwrap();
         for (n, b) in &st.out {
-            std::fs::write(od.join(n), b).unwrap();
+            if b.as_slice() == DANGLING {
+                std::fs::create_dir_all(root.join("moved-away")).unwrap();
+                std::os::unix::fs::symlink(root.join("moved-away").join(n), od.join(n)).unwrap();
+            } else {
+                std::fs::write(od.join(n), b).unwrap();
+            }
         }
     }
 }
@@ -199,6 +211,10 @@ pub fn step(
             }
             b.truncate(b.len() / 2);
         }
+        Action::DanglingOut(f) => {
+            let b = next.out.get_mut(f)?;
+            *b = DANGLING.to_vec();
+        }
         Action::Nop => {}
     }
     let project = project_of(base, alphabet, &next.applied).ok()?;
@@ -254,7 +270,7 @@ pub fn step(
 }
 
 /// the actions of the deeper plan (names as printed by Action::name)
-const CORE_ACTIONS: [&str; 15] = ["edit:skip_add", "edit:variant_add", "edit:field_add", "edit:event_add", "edit:move_type", "edit:rename_command", "edit:blank_line_before_command", "edit:add_unreachable_type", "cfg:visualize", "cfg:mode", "delete:types.ts", "nop", "forced:cfg:mode", "forced:edit:field_add", "forced:nop"];
+const CORE_ACTIONS: [&str; 16] = ["edit:skip_add", "edit:variant_add", "edit:field_add", "edit:event_add", "edit:move_type", "edit:rename_command", "edit:blank_line_before_command", "edit:add_unreachable_type", "cfg:visualize", "cfg:mode", "delete:types.ts", "dangling-link:types.ts", "nop", "forced:cfg:mode", "forced:edit:field_add", "forced:nop"];
 
 fn actions_for(alphabet: &[Edit], st: &HState, with_cfg: bool) -> Vec<Action> {
     let mut v: Vec<Action> = alphabet.iter().map(|e| Action::Edit(e.name.clone())).collect();
@@ -266,6 +282,11 @@ fn actions_for(alphabet: &[Edit], st: &HState, with_cfg: bool) -> Vec<Action> {
     for f in GEN_FILES {
         if st.out.contains_key(f) {
             v.push(Action::DeleteOut(f.to_string()));
+        }
+    }
+    for f in ["types.ts", "index.ts"] {
+        if st.out.contains_key(f) {
+            v.push(Action::DanglingOut(f.to_string()));
         }
     }
     v.push(Action::Nop);
@@ -442,7 +463,7 @@ pub fn run(tier: Tier) -> CheckResult {
                             rejected += 1;
                             continue;
                         }
-                        if matches!(a, Action::Edit(_) | Action::Cfg(_) | Action::DeleteOut(_) | Action::TruncateOut(_) | Action::Forced(_)) {
+                        if matches!(a, Action::Edit(_) | Action::Cfg(_) | Action::DeleteOut(_) | Action::TruncateOut(_) | Action::DanglingOut(_) | Action::Forced(_)) {
                             nontrivial_keys.insert(format!("{}|{}|{}|{}", base_name, zod, seam.name(), st.history.iter().map(|x| x.name()).collect::<Vec<_>>().join(">")));
                         }
                         if !o.discrepancies.is_empty() {
